@@ -6,8 +6,8 @@
 //! small limits (so that the limits that are `usize::MAX` or huge in the real ones also get a lim-1/lim/lim+1 sweep).
 //!
 //! Enumerated: for every configuration x {V1, V2}: every dimension singly at {lim-1, lim, lim+1} ({min-1, min, min+1}
-//! for minima, plus extremes) and ALL PAIRS of dimension values (thorough: also all triples under the small and cuttlefish
-//! configurations). Dimensions: network id (root / subintent), epoch window (root / subintent; empty, length max-1,
+//! for minima, plus extremes) and ALL PAIRS of dimension values (thorough: also all triples under the small
+//! configuration and, without the heavyweight values, under cuttlefish). Dimensions: network id (root / subintent), epoch window (root / subintent; empty, length max-1,
 //! max, max+1, start > end, near u64::MAX), tip (percentage / basis points), nonce / discriminator, plaintext message
 //! (mime length, content length as String and Bytes), encrypted message (payload length, number of decryptors on one
 //! curve / split over both, empty curve entries, curve filed under the wrong key), instruction count, references per
@@ -671,9 +671,17 @@ pub fn run(ctx: Ctx) -> ! {
                 }
             }
             if !ctx.quick() && (*cfg_name == "small" || *cfg_name == "cuttlefish") {
+                // under cuttlefish the values that need 1 MB payloads / 1000 instructions / 512 references / 16-64
+                // signatures stay out of the triples (they are covered singly and in all pairs)
+                let heavy = |st: &Setting| -> bool {
+                    *cfg_name == "cuttlefish" && ["payload-bytes", "signature-validations-total", "signatures@", "instructions@", "references"].iter().any(|p| st.label.starts_with(p))
+                };
                 for i in 0..settings.len() {
                     for j in i + 1..settings.len() {
                         for k in j + 1..settings.len() {
+                            if heavy(&settings[i]) || heavy(&settings[j]) || heavy(&settings[k]) {
+                                continue;
+                            }
                             if settings[i].dim != settings[j].dim && settings[j].dim != settings[k].dim && settings[i].dim != settings[k].dim {
                                 combos.push(vec![i, j, k]);
                             }
